@@ -127,6 +127,110 @@ def temp_program(rng):
     return prog
 
 
+MAP_KEYS = ["a", "b", "k", "zz", "", "A"]
+
+
+def map_program(rng):
+    """Maps (string -> int): literals, insertion / overwrite / compound assignment through [], count, size, empty, erase, clear, iteration in key
+    order with writes through the element, to_string, copies vs references vs parameters. Reads of a key are guarded by count(): reading a
+    missing key default-inserts an undefined value, which the documentation does not describe."""
+    V = lambda n: ("var", n)
+    S = lambda x: ("str", x)
+    I = lambda x: ("int", x)
+    prog = [
+        ("def", "bump", [("m", None), ("key", None)], None,
+         [("if", [(("bin", ">", ("int_of", ("mcall", V("m"), "count", [V("key")])), I(0)), [("assign", ("index", V("m"), V("key")), "+=", I(1))])],
+           [("assign", ("index", V("m"), V("key")), "=", I(1))])]),
+        ("def", "total", [("m", None)], None,
+         [("decl", "t", I(0)), ("rfor", "kv", V("m"), [("assign", V("t"), "+=", ("attr", V("kv"), "second"))]), ("return", V("t"))]),
+        ("def", "grow_copy", [("m", None)], None,
+         [("decl", "c", V("m")), ("assign", ("index", V("c"), S("fresh-key")), "=", I(9)), ("return", ("size", V("c")))]),
+        ("def", "mk", [("n", None)], None, [("return", ("map", [("a", V("n")), ("b", ("bin", "+", V("n"), I(1)))]))]),
+    ]
+    names = []
+
+    def key():
+        return rng.choice(MAP_KEYS)
+
+    def small():
+        return I(rng.randrange(-5, 60))
+
+    def literal():
+        ks = rng.sample(MAP_KEYS, rng.randrange(0, 4))
+        return ("map", [(k, small()) for k in ks])
+
+    def new_map():
+        n = "m%d" % len(names)
+        how = rng.random()
+        if names and how < 0.25:
+            st = ("decl", n, V(rng.choice(names)))           # copy
+        elif names and how < 0.4:
+            st = ("ref", n, rng.choice(names))               # alias
+        elif how < 0.55:
+            st = ("decl", n, ("call", "mk", [small()]))       # returned temporary
+        else:
+            st = (rng.choice(["decl", "auto"]), n, literal())
+        names.append(n)
+        return [st]
+
+    def op(depth):
+        if not names or rng.random() < 0.12:
+            return new_map()
+        m = V(rng.choice(names))
+        k = key()
+        c = rng.random()
+        guard = lambda body: ("if", [(("bin", ">", ("int_of", ("mcall", m, "count", [S(k)])), I(0)), body)], None)
+        if c < 0.18:
+            return [("assign", ("index", m, S(k)), "=", small())]
+        if c < 0.30:
+            return [guard([("assign", ("index", m, S(k)), rng.choice(["+=", "-=", "*="]), I(rng.randrange(1, 4)))])]
+        if c < 0.40:
+            return [guard([("print", ("index", m, S(k)))])]
+        if c < 0.46:
+            x = "x%d" % rng.randrange(10 ** 6)
+            return [guard([("decl", x, ("index", m, S(k))), ("assign", V(x), "+=", I(100)), ("print", V(x)), ("print", ("index", m, S(k)))])]
+        if c < 0.54:
+            return [("print", rng.choice([("int_of", ("mcall", m, "count", [S(k)])), ("size", m), ("mcall", m, "empty", [])]))]
+        if c < 0.60:
+            return [("print", ("int_of", ("mcall", m, "erase", [S(k)])))]
+        if c < 0.63:
+            return [("expr", ("mcall", m, "clear", []))]
+        if c < 0.72:
+            return [("print", rng.choice([m, ("tostr", m)]))]
+        if c < 0.82:
+            body = [("print", ("attr", V("kv"), "first"))]
+            if rng.random() < 0.6:
+                body.append(("assign", ("attr", V("kv"), "second"), rng.choice(["+=", "*=", "="]), I(rng.randrange(1, 4))))
+            body.append(("print", ("attr", V("kv"), "second")))
+            if rng.random() < 0.2:
+                body.insert(0, ("if", [(("bin", "==", ("attr", V("kv"), "first"), S(key())), [(rng.choice(["continue", "break"]),)])], None))
+            return [("rfor", "kv", m, body)]
+        if c < 0.90:
+            return [rng.choice([("expr", ("call", "bump", [m, S(k)])), ("print", ("call", "total", [m])), ("print", ("call", "grow_copy", [m])),
+                                ("print", ("call", "total", [("call", "mk", [small()])]))])]
+        if depth > 0:
+            inner = []
+            for _ in range(rng.randrange(1, 4)):
+                inner += op(depth - 1)
+            inner = [st for st in inner if st[0] not in ("decl", "auto", "ref") or not st[1].startswith("m")]     # maps are declared at top level only
+            w = rng.random()
+            if w < 0.4:
+                return [("if", [(("bin", "<", ("size", m), I(rng.randrange(0, 4))), inner)], [("print", S("else"))])]
+            if w < 0.7:
+                return [("for", "i%d" % rng.randrange(10 ** 6), 0, rng.randrange(1, 4), "<", "++i", inner)]
+            return [("block", inner)]
+        return [("print", ("size", m))]
+
+    prog += new_map()
+    for _ in range(rng.randrange(6, 22)):
+        before = len(names)
+        sts = op(2)
+        prog += sts
+    for n in names:
+        prog.append(("print", V(n)))
+    return prog
+
+
 def observe_model(prog, deviations=()):
     it = interp.Interp(deviations)
     try:
@@ -156,6 +260,9 @@ def run(ctx, tier, seed, scale=1.0):
     for i in range(int((600 if quick else 30000) * scale)):
         prog = temp_program(rng)
         progs.append(("temporaries", prog, printer.Printer().program(prog)))
+    for i in range(int((700 if quick else 40000) * scale)):
+        prog = map_program(rng)
+        progs.append(("maps", prog, printer.Printer().program(prog)))
     cases = [["S", src] for _, _, src in progs]
     res, hf = vlib.run_cases(exe, cases, "c03", timeout_s=120, batch=32)
     ctx.harness_failures += hf
@@ -205,6 +312,8 @@ def run(ctx, tier, seed, scale=1.0):
                 "typed parameters, guards, early return and parameter mutation, lambdas with captures, script classes, vectors, try/catch/finally/throw); "
                 "family 'temporaries': a callee declares a copy of its parameter (plain, through ?:, through a function; in a block, if, ranged-for, try), "
                 "mutates the copy, and parameter, argument and copy are observed - for arguments that are temporaries of every provenance and named values; "
+                "family 'maps': string->int maps (literals, [] insertion / overwrite / compound assignment, count, size, empty, erase, clear, iteration in key order "
+                "with writes through the element, to_string, copies vs references vs parameters, maps returned by functions); "
                 "family 'precedence': int/bool expressions printed with minimal parentheses; non-trivial = programs of >= 6 lines and every precedence "
                 "expression; distinct by source")
     ctx.assumptions += ["the reference interpreter is my reading of cheatsheet.md / the grammar notes; constructs the documentation does not pin down are not generated",
